@@ -31,8 +31,8 @@ SUITE=skipped
 if [ "$SKIP" != "--skip-suite" ]; then
   rm -f "$DEMO_DST"
   echo "== suite with patch"
-  cargo nextest run --workspace --no-fail-fast --offline --test-threads 8 >/tmp/confirm_suite.log 2>&1
-  FAILS=$(grep -E "^\s+(FAIL|SIGABRT|SIGSEGV|TIMEOUT|LEAK-FAIL)" /tmp/confirm_suite.log | grep -v -E "web_ide_shell_serves_local_hashed_assets_without_cdn_dependency|hmi_descriptor_watcher_handles_rapid_file_changes_without_deadlock|latency_and_resource_budgets_are_enforced|web_ide_latency_and_resource_budget_contract|web_ide_reference_performance_gates_contract" | sort -u | head -5)
+  cargo nextest run --workspace --no-fail-fast --offline --test-threads 8 --tool-config-file pb:/w/lib/nextest.toml --profile pb >/tmp/confirm_suite.log 2>&1
+  FAILS=$(grep -E "^\s+(FAIL|SIGABRT|SIGSEGV|TIMEOUT|LEAK-FAIL)" /tmp/confirm_suite.log | grep -v -E "web_ide_shell_serves_local_hashed_assets_without_cdn_dependency|hmi_descriptor_watcher_handles_rapid_file_changes_without_deadlock|latency_and_resource_budgets_are_enforced|web_ide_latency_and_resource_budget_contract|web_ide_reference_performance_gates_contract|breakpoint_set_while_running_hits_on_subsequent_cycle" | sort -u | head -5)
   if grep -q "error: could not compile\|error\[E" /tmp/confirm_suite.log; then SUITE="build_error"; elif [ -n "$FAILS" ]; then SUITE="fails: $FAILS"; else SUITE=pass; fi
   grep -E "Summary" /tmp/confirm_suite.log | tail -1
   cp "$D/$DEMO_SRC" "$DEMO_DST"
